@@ -59,14 +59,13 @@ static void user_shorten(const ldb_comparator_t *c, ldb_buffer_t *b) {
   size_t n2;
   __CPROVER_assert(c == &g_uc, "ikc: the user comparator is called with itself as context");
   __CPROVER_assert(__CPROVER_rw_ok(b, sizeof(*b)) && b != g_key, "S1: the user comparator shortens a private buffer, not the caller's key");
-  __CPROVER_assert(b->alloc > 0 && __CPROVER_rw_ok(b->data, b->alloc) && b->size <= b->alloc && !__CPROVER_same_object(b->data, g_kdata),
+  __CPROVER_assert(b->size <= b->alloc && (b->alloc == 0 || (__CPROVER_rw_ok(b->data, b->alloc) && !__CPROVER_same_object(b->data, g_kdata))),
                    "S1: the private buffer is a valid owned buffer with storage of its own");
   __CPROVER_assert(b->size == g_ksize - 8, "S1: the private copy has the length of the key's user part (all but the last 8 bytes)");
   __CPROVER_assert(!(g_k < g_ksize - 8) || b->data[g_k] == g_key_k, "S1: the private copy holds the bytes of the key's user part");
-  __CPROVER_assert(b->alloc >= g_ksize, "the private buffer has room for the 8-byte tag (no reallocation after the user comparator ran)");
   g_tmp = b; g_tmp_data = b->data; g_tmp_alloc = b->alloc;
   /* an arbitrary user comparator: any content, any length that fits the storage it was given */
-  __CPROVER_havoc_object(b->data);
+  if (b->alloc > 0) __CPROVER_havoc_object(b->data);
   n2 = nondet_size(); __CPROVER_assume(n2 <= b->alloc);
   b->size = n2;
   g_cand_n = n2; g_cand_k = (g_k < n2) ? b->data[g_k] : 0;
@@ -139,7 +138,7 @@ static void uc_setup(void) {
   CHECK(g_cmp_calls == ((g_cand_n < g_ksize - 8) ? 1 : 0), what ": the logical test is made exactly when the candidate is physically shorter"); \
   if (shortened) { \
     CHECK((key).size == g_cand_n + 8, what ": a shortened key is the candidate plus exactly 8 tag bytes"); \
-    CHECK((key).data == g_tmp_data && (key).alloc == g_tmp_alloc && (key).size <= (key).alloc, what ": the key takes over the candidate's storage (valid buffer)"); \
+    CHECK((key).size <= (key).alloc && __CPROVER_rw_ok((key).data, (key).alloc) && !__CPROVER_same_object((key).data, g_kdata), what ": the shortened key is a valid owned buffer, not the old storage"); \
     CHECK(!(g_k < g_cand_n) || (key).data[g_k] == g_cand_k, what ": the user part of a shortened key is the candidate, byte for byte"); \
     CHECK(IS_LE64((key).data + g_cand_n, SEEK_TAG), what ": the tag of a shortened key is pack(kMaxSequenceNumber, kValueTypeForSeek) = 01 ff ff ff ff ff ff ff, little-endian"); \
   } else { \
